@@ -14,6 +14,7 @@ run() drives
 from __future__ import annotations
 
 import ast
+import re
 from pathlib import Path
 
 from .. import core, translate as T
@@ -189,6 +190,26 @@ def translate(repo: Path) -> dict:
     for frag in ("result = midx.object_offset(", "if sha in self._get_pack_by_name(result[0]):", "except (KeyError, PackFileDisappeared):",
                  "return super().contains_packed(sha)"):
         _expect(frag in cp_src, f"DiskObjectStore.contains_packed: `{frag}` not found (a MIDX entry must be checked against its pack)")
+    ca = T.find_def(osm, "_collect_ancestors")
+    branch = None
+    for n in ast.walk(ca):
+        if isinstance(n, ast.If) and ast.unparse(n.test) == "e not in commits":
+            branch = n
+    _expect(branch is not None, "_collect_ancestors: `elif e not in commits` not found")
+    body = [ast.unparse(st) for st in branch.body]
+    _expect(body[0] == "commits.add(e)" and body[1].replace("\n", " ").split() == "if e in shallow: continue".split(),
+            f"_collect_ancestors: the shallow test must directly follow commits.add(e), before any parent source is asked: {body[:2]}")
+    rest = "\n".join(body[2:])
+    _expect("shallow" not in rest and "commit_graph.get_parents(e)" in rest and "store[e]" in rest,
+            "_collect_ancestors: the shallow test must dominate BOTH parent sources (graph hit and object load)")
+    rpm = T.module_ast(repo / "dulwich" / "repo.py")
+    pp_src = ast.unparse(T.find_def(rpm, "ParentsProvider.get_parents"))
+    pp_src = " ".join(pp_src.split())
+    i_sh, i_cg, i_st = pp_src.find("if commit_id in self.shallows: return []"), pp_src.find("self.commit_graph.get_parents("), pp_src.find("self.store[commit_id]")
+    _expect(0 <= i_sh < i_cg < i_st, "ParentsProvider.get_parents: the shallow test must precede the commit-graph lookup and the object load")
+    mof_src = ast.unparse(T.find_def(osm, "MissingObjectFinder.__init__"))
+    _expect("have_commits, exclude=None, shallow=shallow" in mof_src and "shallow=frozenset(shallow)" in mof_src,
+            "MissingObjectFinder: the shallow set must reach both walks (haves closure and wants walk)")
     gr_src = ast.unparse(T.find_def(osm, "DiskObjectStore.get_raw"))
     for frag in ("result = midx.object_offset(sha)", "pack_name, _offset = result", "pack = self._get_pack_by_name(pack_name)",
                  "return pack.get_raw(sha)", "except (KeyError, PackFileDisappeared):", "return super().get_raw(name)"):
@@ -203,6 +224,13 @@ def translate(repo: Path) -> dict:
             "find_commit_bitmaps: packs without a .bitmap file must be skipped")
     # ---- refs layering --------------------------------------------------------------------------
     rf = T.module_ast(repo / "dulwich" / "refs.py")
+    drc = T.find_def(rf, "DiskRefsContainer")
+    joins = [ast.unparse(n) for n in ast.walk(drc) if isinstance(n, ast.Call) and ast.unparse(n.func) == "os.path.join"
+             and any(isinstance(a, ast.Constant) and a.value == b"packed-refs" for a in n.args)]
+    consts = sum(1 for n in ast.walk(drc) if isinstance(n, ast.Constant) and n.value == b"packed-refs")
+    _expect(joins and consts == len(joins) and all(j.replace(" ", "") == "os.path.join(self.path,b'packed-refs')" for j in joins),
+            f"DiskRefsContainer: packed-refs must be located in the COMMON dir (os.path.join(self.path, b'packed-refs')), never through "
+            f"the per-worktree resolver: {joins} ({consts} occurrences)")
     rr_src = ast.unparse(T.find_def(rf, "RefsContainer.read_ref"))
     _expect("contents = self.read_loose_ref(refname)" in rr_src and "if not contents" in rr_src
             and "self.get_packed_refs().get(refname, None)" in rr_src, "RefsContainer.read_ref: loose-then-packed shape changed")
@@ -891,7 +919,8 @@ def make_plan(tw: Twin, rng, n_each=5) -> dict:
     tags = sorted(o for o, k in tw.kind.items() if k == "tag")
     tips = sorted({tw.peel(v) for v in tw.refs.values()} & set(commits))
     pick = lambda pool, k: [rng.choice(pool) for _ in range(k)] if pool else []   # noqa: E731
-    plan = {"anc": [], "mb": [], "ff": [], "shallow": [], "depth": [], "walk": [], "reachc": [], "reacho": [], "mof": []}
+    plan = {"anc": [], "mb": [], "ff": [], "shallow": [], "depth": [], "walk": [], "reachc": [], "reacho": [], "mof": [],
+            "anc_sh": [], "reachc_sh": [], "mof_sh": []}
     if not commits:
         return plan
     bias = lambda: rng.choice(tips) if tips and rng.random() < 0.6 else rng.choice(commits)   # noqa: E731
@@ -909,6 +938,16 @@ def make_plan(tw: Twin, rng, n_each=5) -> dict:
         wants = sorted({rng.choice((tips or commits) + tags) for _ in range(rng.randint(1, 2))})
         plan["mof"].append([haves, wants])
     plan["mof"].append([[], tips or commits[:1]])
+    # shallow = the OTHER side's boundary, in a repository that has the full history: every single commit, a few
+    # pairs, the empty set; heads = all tips and one random head
+    heads_all = tips or commits[:1]
+    sh_sets = [[]] + [[c] for c in commits[:14]] + [sorted(rng.sample(commits, 2)) for _ in range(3) if len(commits) >= 2]
+    for sh in sh_sets:
+        plan["anc_sh"].append([heads_all, [], sh])
+    for sh in rng.sample(sh_sets, min(5, len(sh_sets))):
+        plan["anc_sh"].append([[bias()], sorted({rng.choice(commits) for _ in range(rng.randint(0, 1))}), sh])
+        plan["reachc_sh"].append([heads_all, [], sh])
+        plan["mof_sh"].append([sorted({rng.choice(commits) for _ in range(rng.randint(0, 1))}), heads_all, sh])
     for _ in range(max(2, n_each // 2)):
         plan["shallow"].append([sorted({bias() for _ in range(rng.randint(1, 2))}), rng.randint(1, 4)])
         plan["depth"].append(bias())
@@ -960,6 +999,17 @@ def ask(repo, tw: Twin, plan: dict, limit: float = QUERY_TIME_LIMIT) -> dict:
             a, b = _collect_ancestors(st, list(heads), frozenset(common))
             return [sorted(x.decode() for x in a), sorted(x.decode() for x in b)]
         put(["anc", [h.decode() for h in heads], [c.decode() for c in common]], anc)
+    for heads, common, sh in plan["anc_sh"]:
+        def anc_sh():
+            a, b = _collect_ancestors(st, list(heads), frozenset(common), frozenset(sh))
+            return [sorted(x.decode() for x in a), sorted(x.decode() for x in b)]
+        put(["anc-shallow", [h.decode() for h in heads], [c.decode() for c in common], [c.decode() for c in sh]], anc_sh)
+    for heads, excl, sh in plan["reachc_sh"]:
+        put(["reach-commits-shallow", [h.decode() for h in heads], [c.decode() for c in excl], [c.decode() for c in sh]],
+            lambda: sorted(x.decode() for x in st.get_reachability_provider().get_reachable_commits(list(heads), list(excl) or None, set(sh))))
+    for haves, wants, sh in plan["mof_sh"]:
+        put(["mof-shallow", [h.decode() for h in haves], [w.decode() for w in wants], [c.decode() for c in sh]],
+            lambda: sorted(sha.decode() for sha, _ in MissingObjectFinder(st, list(haves), list(wants), shallow=set(sh))))
     for cs in plan["mb"]:
         put(["merge-base", [c.decode() for c in cs]], lambda: sorted(x.decode() for x in find_merge_base(repo, list(cs))))
         put(["octopus-base", [c.decode() for c in cs]], lambda: sorted(x.decode() for x in find_octopus_base(repo, list(cs))))
@@ -1205,6 +1255,8 @@ def _xor_chain_broken(tw: Twin, bm, key, pids) -> bool:
 
 def bitmap_causes(tw: Twin, q: list, aN, aA) -> set:
     from dulwich.bitmap import bitmap_to_object_shas
+    if q[0] == "reach-commits-shallow" and not q[3]:
+        q = ["reach-commits", q[1], q[2]]      # no boundary given: the same query
     if aA == ["EXC", "FileNotFoundError"]:
         pd = tw.A.path / "objects" / "pack"
         if any(not p.with_suffix(".bitmap").exists() for p in pd.glob("*.pack")):
@@ -1466,6 +1518,56 @@ def gen_scenario(rng, subset, use_git: bool, size: int = 10) -> list:
 _FAIL_CAP = 3   # reported failing pairs per (scenario, class)
 
 
+def walk_definition(tw: Twin, heads, common, shallow):
+    """The definition, from the ground truth of the scenario: breadth-first from the heads; a commit in `common` is
+    a base, not entered; a shallow commit is reported and never expanded."""
+    commits, bases, queue = set(), set(), list(heads)
+    while queue:
+        e = queue.pop(0)
+        if e in common:
+            bases.add(e)
+        elif e not in commits:
+            commits.add(e)
+            if e in shallow:
+                continue
+            queue.extend(tw.parents[e])
+    return commits, bases
+
+
+def check_shallow_definition(ctx, tw: Twin, answers: dict, ops_so_far, label, sid):
+    """`_collect_ancestors(heads, common, shallow)` and `get_reachable_commits(shallow=)` against the brute-force
+    definition, for the repository WITH acceleration data (fresh and long-lived handle).  The side without is
+    checked too but only noted: a wrong answer there is not about acceleration data."""
+    import json
+    for hname in ("Af", "Al", "Nf"):
+        for key, got in answers[hname].items():
+            q = json.loads(key)
+            if q[0] not in ("anc-shallow", "reach-commits-shallow") or not isinstance(got, list) or (got and got[0] in ("EXC", "SKIPPED")):
+                continue
+            if q[0] == "reach-commits-shallow" and not q[3]:
+                continue    # without a boundary the bitmap provider may answer: its known differences are classified in the pair oracle
+            heads, common, sh = ([x.encode() for x in q[i]] for i in (1, 2, 3))
+            if any(c not in tw.parents for c in heads + common + sh):
+                continue
+            try:
+                commits, bases = walk_definition(tw, heads, set(common), set(sh))
+            except KeyError:
+                continue
+            want = [sorted(x.decode() for x in commits), sorted(x.decode() for x in bases)] if q[0] == "anc-shallow" \
+                else sorted(x.decode() for x in commits)
+            ctx.count("shallow.definition", (sid, label, hname, key), True, q[0])
+            if got != want and answers["Nf"].get(key) == want and hname != "Nf":
+                ctx.oracle_fail("shallow.definition", {"ops": ops_so_far, "sid": sid, "checkpoint": label, "handle": hname,
+                                                       "query": q, "got": _clip(got), "definition": _clip(want),
+                                                       "accelerators": list(tw.accel_log)},
+                                f"walk with shallow={q[3]} goes wrong with acceleration data present: {str(got)[:200]} vs definition {str(want)[:200]}",
+                                None)
+                return
+            if got != want and hname == "Nf":
+                ctx.notes.append(f"shallow walk differs from the definition WITHOUT acceleration data (not C14): {key[:160]}")
+                return
+
+
 def _clip(ans, n=40):
     """Answers are stored in replay files: keep them small."""
     if isinstance(ans, list) and len(ans) > n:
@@ -1495,6 +1597,7 @@ def checkpoint(ctx, tw: Twin, ops_so_far: list, label: str, sid: str, plan_rng, 
         finally:
             r.close()
         answers[name + "l"] = ask(side.ll, tw, plan)
+    check_shallow_definition(ctx, tw, answers, ops_so_far, label, sid)
     fresh_cls = {}
     budget = seen_cls.setdefault("_attribution_budget", [ATTRIBUTION_BUDGET_S])
     for mode, ll in (("fresh", False), ("ll", True)):
@@ -2310,9 +2413,14 @@ def stream_reach(ctx):
             g = ";".join(f"{i}={_csv(par[i])}" for i in range(n))
             lines.append(f"c14.reach.collect {g} {_csv(common)} {_csv(heads)}")
             meta.append(real)
+            shallow = sorted({rng.randrange(n) for _ in range(rng.randint(0, 2))})
+            got, _bases = _collect_ancestors(store, [ids[h] for h in heads], frozenset(ids[c] for c in common),
+                                             frozenset(ids[c] for c in shallow))
+            lines.append(f"c14.reach.collectsh {g} {_csv(common)} {_csv(shallow)} {_csv(heads)}")
+            meta.append(_csv(sorted(ids.index(x) for x in got)))
     outs = ctx.driver.batch(lines)
     for ln, real, mo in zip(lines, meta, outs):
-        ctx.count("fmt.reach", ln, True, "excl" if " - " not in ln else "plain")
+        ctx.count("fmt.reach", ln, True, "shallow" if "collectsh" in ln else "excl" if " - " not in ln else "plain")
         if mo != real:
             ctx.disagree("fmt.reach", {"line": ln}, mo, real)
 
@@ -2326,6 +2434,8 @@ def run_corpus(ctx):
         return
     for f in sorted(d.glob("*.json")):
         w = json.loads(f.read_text())
+        if w.get("kind") == "worktree":
+            continue        # replayed by stream_worktrees
         before = dict(ctx.known_hit)
         nfail = len(ctx.oracle_failures)
         run_scenario(ctx, w["ops"], "corpus-" + w["id"], None, "corpus:" + w["id"], w.get("extra_plan"), always_entries=True)
@@ -2348,7 +2458,7 @@ def run(ctx: core.Ctx):
     _quiet()
     _cap_reports(ctx)
     run_corpus(ctx)
-    for fn in (stream_ewah, stream_cg, stream_cg_close, stream_midx, stream_gate_refs, stream_reach):
+    for fn in (stream_ewah, stream_cg, stream_cg_close, stream_midx, stream_gate_refs, stream_reach, stream_worktrees):
         try:
             fn(ctx)
         except core.InfraError:
@@ -2408,7 +2518,7 @@ def search(ctx: core.Ctx):
     import random
     _quiet()
     _cap_reports(ctx)
-    for fn in (stream_ewah, stream_cg, stream_cg_close, stream_midx, stream_gate_refs, stream_reach):
+    for fn in (stream_ewah, stream_cg, stream_cg_close, stream_midx, stream_gate_refs, stream_reach, stream_worktrees):
         try:
             fn(ctx)
         except core.InfraError:
@@ -2490,3 +2600,182 @@ def replay(ctx: core.Ctx, data: dict) -> int:
         return 1
     print("replay: property holds on this case" + (" (apart from known findings)" if ctx.known_hit else ""))
     return 0
+
+
+# ================================================================================================
+# packed-refs through linked worktrees (per-worktree git dir != common dir)
+# ================================================================================================
+
+def _wt_answers(path: Path, names) -> dict:
+    """Ref answers through the Repo opened at `path` (main checkout or linked worktree)."""
+    from dulwich.repo import Repo
+    out = {}
+    r = Repo(str(path))
+    try:
+        out["as_dict"] = _try(lambda: sorted((k.decode(), v.decode()) for k, v in r.refs.as_dict().items()))
+        out["keys"] = _try(lambda: sorted(k.decode() for k in r.refs.keys()))
+        out["head"] = _try(lambda: r.head().decode())
+        for n in names:
+            out["read:" + n] = _try(lambda: (r.refs.read_ref(n.encode()) or b"<none>").decode())
+            out["in:" + n] = _try(lambda: n.encode() in r.refs)
+            out["get:" + n] = _try(lambda: r.refs[n.encode()].decode())
+    finally:
+        r.close()
+    return out
+
+
+def _is_shared(n: str) -> bool:
+    return n.startswith("refs/") and not n.startswith(("refs/bisect/", "refs/worktree/", "refs/rewritten/"))
+
+
+def stream_worktrees(ctx):
+    """Twin checkouts with a linked worktree each; the same ref operations through the main repository and through
+    the linked worktree; one twin additionally gets its refs packed (dulwich / C git, from either side).  Compared:
+    without vs with packed-refs through each view; main view vs linked view for shared refs; `git for-each-ref`
+    from both worktrees vs dulwich; and no packed-refs file ever appears under .git/worktrees/<id>/."""
+    import shutil
+    from dulwich.repo import Repo
+    rng = ctx.rng
+    env_dates = {"GIT_AUTHOR_DATE": "1600000000 +0000", "GIT_COMMITTER_DATE": "1600000000 +0000"}
+
+    def git(path, *args):
+        import subprocess
+        p = subprocess.run(["git", "-C", str(path), "-c", "gc.auto=0", "-c", "init.defaultBranch=master", *args],
+                           env=core.clean_env(env_dates), stdout=subprocess.PIPE, stderr=subprocess.STDOUT, text=True, timeout=60)
+        if p.returncode != 0:
+            raise core.InfraError(f"git {' '.join(args)} failed in {path}: {p.stdout[-400:]}")
+        return p.stdout
+
+    import json as _json
+    scripts = []
+    for f in sorted((core.VERIF / "corpus" / "C14").glob("worktree-*.json")):
+        scripts.append(_json.loads(f.read_text())["ops"])
+    names = ["refs/heads/master", "refs/heads/b1", "refs/heads/b2", "refs/heads/wt", "refs/tags/t1", "refs/tags/a1",
+             "refs/worktree/w", "refs/bisect/bad", "refs/heads/never", "HEAD"]
+    reported = 0
+    for it in range(ctx.budget(6, mult=5)):
+        root = ctx.scratch / f"wt-{it}"
+        if root.exists():
+            shutil.rmtree(root)
+        sides = {}
+        for side in ("N", "A"):
+            main = root / side / "main"
+            main.mkdir(parents=True)
+            git(main, "init", "-q", ".")
+            for i in range(3):
+                git(main, "commit", "-q", "--allow-empty", "-m", f"c{i}")
+            git(main, "branch", "b1", "HEAD~1")
+            git(main, "branch", "b2", "HEAD~2")
+            git(main, "tag", "t1", "HEAD~1")
+            git(main, "tag", "-a", "-m", "a1", "a1", "HEAD")
+            git(main, "worktree", "add", "-q", "-b", "wt", str(root / side / "linked"), "HEAD~1")
+            sides[side] = {"main": main, "linked": root / side / "linked"}
+        shas = git(sides["N"]["main"], "rev-list", "master").split()
+        scripted = scripts[it] if it < len(scripts) else None
+        nops = len(scripted) if scripted else rng.randint(4, 9)
+        log = []
+        for step in range(nops + 1):
+            if step:
+                if scripted:
+                    kind, view, actor, name, val = scripted[step - 1]
+                    val = shas[val]
+                else:
+                    view = rng.choice(["main", "linked"])
+                    actor = rng.choice(["dulwich", "dulwich", "git"])
+                    kind = rng.choice(["set", "set", "delete", "per-wt", "pack", "pack", "pack"])
+                    name = rng.choice(["refs/heads/b1", "refs/heads/b2", "refs/tags/t1", "refs/heads/new"])
+                    val = rng.choice(shas)
+                op = [kind, view, actor, name, val]
+                log.append(op)
+                for side in ("N", "A"):
+                    p = sides[side][view]
+                    if kind == "pack":
+                        if side == "N":
+                            continue                     # the twin without packed-refs
+                        if actor == "git":
+                            git(p, "pack-refs", "--all")
+                        else:
+                            r = Repo(str(p))
+                            try:
+                                r.refs.pack_refs(all=True)
+                            finally:
+                                r.close()
+                        continue
+                    if kind == "per-wt":
+                        if side == "N":
+                            name2 = name if scripted else rng.choice(["refs/worktree/w", "refs/bisect/bad"])
+                        target = name2
+                    else:
+                        target = name
+                    if actor == "git":
+                        if kind == "delete":
+                            git(p, "update-ref", "-d", target)
+                        else:
+                            git(p, "update-ref", target, val)
+                    else:
+                        r = Repo(str(p))
+                        try:
+                            if kind == "delete":
+                                try:
+                                    del r.refs[target.encode()]
+                                except KeyError:
+                                    pass
+                            else:
+                                r.refs[target.encode()] = val.encode()
+                        finally:
+                            r.close()
+            ans = {(side, view): _wt_answers(sides[side][view], names) for side in ("N", "A") for view in ("main", "linked")}
+            case = {"ops": log[:], "step": step}
+            problems = []
+            unexplained = False
+            for view in ("main", "linked"):
+                for k, v in ans[("N", view)].items():
+                    ctx.count("worktree.pair", (it, step, view, k), True, view)
+                    if ans[("A", view)][k] != v:
+                        problems.append((f"through the {view} view {k} is {ans[('A', view)][k]!r:.160} with packed-refs, {v!r:.160} without",
+                                         "worktree-packed-refs-changes-answer"))
+            for n in names:
+                if _is_shared(n):
+                    for pre in ("read:", "in:", "get:"):
+                        if ans[("A", "main")][pre + n] != ans[("A", "linked")][pre + n]:
+                            problems.append((f"shared ref {n}: main view {ans[('A', 'main')][pre + n]!r:.100}, linked view "
+                                             f"{ans[('A', 'linked')][pre + n]!r:.100}", "worktree-shared-ref-views-differ"))
+            for view in ("main", "linked"):
+                fer = sorted(tuple(reversed(ln.split(" ", 1))) for ln in git(sides["A"][view], "for-each-ref", "--format=%(objectname) %(refname)").splitlines())
+                dul = ans[("A", view)]["as_dict"]
+                if isinstance(dul, list):
+                    dul = sorted((k, v) for k, v in dul if k.startswith("refs/"))
+                    ctx.count("worktree.git", (it, step, view), True, view)
+                    if [tuple(x) for x in dul] != fer:
+                        problems.append((f"{view} view: dulwich lists {len(dul)} refs, git for-each-ref {len(fer)}: "
+                                         f"{sorted(set(map(tuple, dul)) ^ set(fer))[:4]}", "worktree-refs-differ-from-git"))
+            stray = [str(x) for x in (sides["A"]["main"] / ".git" / "worktrees").glob("*/packed-refs")]
+            if stray:
+                problems.append((f"packed-refs created under the per-worktree git dir: {stray}", "packed-refs-in-worktree-gitdir"))
+            packed_text = (sides["A"]["main"] / ".git" / "packed-refs").read_text() if (sides["A"]["main"] / ".git" / "packed-refs").exists() else ""
+            packed_per_wt = {ln.split(" ", 1)[1] for ln in packed_text.splitlines()
+                             if " " in ln and not ln.startswith(("#", "^")) and not _is_shared(ln.split(" ", 1)[1])}
+
+            def leak_only(view, k):
+                """the difference concerns only per-worktree refs that sit in the shared packed-refs file"""
+                a, n_ = ans[("A", view)][k], ans[("N", view)][k]
+                if k in ("as_dict", "keys") and isinstance(a, list) and isinstance(n_, list):
+                    nm = lambda xs: {x[0] if isinstance(x, (list, tuple)) else x for x in xs}   # noqa: E731
+                    da = {tuple(x) if isinstance(x, list) else x for x in a} ^ {tuple(x) if isinstance(x, list) else x for x in n_}
+                    return bool(da) and nm(da) <= packed_per_wt
+                return ":" in k and k.split(":", 1)[1] in packed_per_wt
+            for what, cls in problems[:6]:
+                if cls == "worktree-packed-refs-changes-answer":
+                    m = re.match(r"through the (\w+) view (\S+) is", what)
+                    if m and leak_only(m.group(1), m.group(2)):
+                        cls = "packed-refs-holds-per-worktree-ref"
+                elif cls == "worktree-refs-differ-from-git" and packed_per_wt:
+                    cls = "packed-refs-holds-per-worktree-ref"
+                if reported < 6:
+                    nf = len(ctx.oracle_failures)
+                    ctx.oracle_fail("worktree", dict(case, what=what), what, cls)
+                    reported += len(ctx.oracle_failures) - nf
+                    unexplained = unexplained or len(ctx.oracle_failures) > nf
+            if unexplained:
+                break
+        shutil.rmtree(root, ignore_errors=True)
